@@ -147,6 +147,9 @@ func SessionNext(rc *RunCtx) *Step {
 			if len(st.Edits) == 0 {
 				continue
 			}
+			if fp := cfg.Extra["fail_pct"]; fp > 0 && r.IntN(100) < fp {
+				st.Fail = &Fail{Mode: []string{"error", "panic"}[r.IntN(2)], After: r.IntN(len(st.Edits) + 1)}
+			}
 			return st
 		case "sync", "push_only":
 			if !attached {
